@@ -234,6 +234,12 @@ func runShard(r *vlib.Run, s *shard) {
 			runCase(r, s, d, &c)
 		}
 	}
+	if s.Iats && !aborted {
+		for i := 0; i < r.Scale(1, 2) && !aborted; i++ {
+			c := lib.Case{T: s.T, Role: s.Roles[0], Stage: s.Stage, Gen: "iat2-single-value-seed", Seed: rng.U64() >> 1, Iat: 2}
+			aborted = stuck(runCase(r, s, d, &c))
+		}
+	}
 	// ScrambleSuit: the split inside the trailing MAC/mark at every offset, several padding lengths
 	if s.Name == "scramblesuit-hs" && !aborted {
 		for pad := 0; pad < r.Scale(4, 24); pad++ {
@@ -455,6 +461,7 @@ func parent(r *vlib.Run) {
 				parentViolate(r, rs.last.Prefix()+"-process-crash", "impl-oracle", rs.last.Key()+": "+rs.err, rs.last)
 			} else {
 				fmt.Fprintln(os.Stderr, rs.err)
+				os.RemoveAll(tmp)
 				os.Exit(4)
 			}
 			continue
@@ -511,8 +518,10 @@ func parent(r *vlib.Run) {
 		os.Stdout.Write(b)
 	} else if err := os.WriteFile(r.OutPath, b, 0o644); err != nil {
 		fmt.Fprintln(os.Stderr, "cannot write result:", err)
+		os.RemoveAll(tmp)
 		os.Exit(3)
 	}
+	os.RemoveAll(tmp)
 	os.Exit(0)
 }
 
